@@ -3055,6 +3055,6 @@ def check_C01(run):
         run.violation(dict(kind='oracle-failed-on-implementation', oracle='exit 0 without skips => the effective destination mirrors the source; excluded entries untouched; forbidden combinations change nothing',
                            failing_cases=len(fails), **fails[0]))
     run.cov['trusted_base'] = C.GLOBAL_TRUST + ['the mirror theorem C01_mirror_fs is about the file-system model (FS.lean) and the plan executor syncDest: tied to the code by the L3 doer-model stream (every call, with its error cases) and by the L4 sync-model stream (whole syncs: final tree of the CLI = final file system of syncDest, node for node); POSIX semantics beyond what these streams exercise is an assumption',
-                                                'the composition boss model (string paths, chunked files, arrival orders) -> syncDest (component paths, one-part files, listing orders) is by bridge theorems (C01_plan_bridge, C01_exec_bridge, C01_exec_bridge_file, C13_closed_form, C11_dest_bytes), not one end-to-end theorem; filters and hidden entries are outside C01_mirror_fs (a hidden entry beneath a folder that must go makes the run fail: C07)',
+                                                'the composition boss model (string paths, chunked files, arrival orders) -> syncDest (component paths, one-part files, listing orders) is by bridge theorems (C01_plan_bridge, C01_exec_bridge, C01_exec_bridge_file, C13_closed_form, C11_dest_bytes), not one end-to-end theorem; filters are a visibility predicate in C01_mirror_filtered (both listings hold exactly the visible entries; a hidden entry beneath a folder that must go is excluded by hypothesis hsafe: that run fails, C07); the tie of vis to the compiled regex filters is C06/C17, not part of that theorem',
                                                 'remote placements run against a fake ssh/scp on this host (real --doer process, real TCP and AES-GCM); Windows doers are not runnable here',
                                                 'the independent filter evaluation uses Python re.fullmatch on patterns whose syntax coincides with the regex crate']
